@@ -523,3 +523,45 @@ Proof.
     change (go_range B 0%Z keys a0) with (go_range (R:=mlog * option string) (fun (_ : Z) (v : string) (go_st : mlog) => Cont (wr (LCall "Account.SigningKeys" "Add" v) go_st)) 0%Z keys a0) end.
   rewrite add_keys_loop. cbv iota beta. unfold wr. cbn [app]. rewrite <- !app_assoc. reflexivity.
 Qed.
+
+(* ---------- the authorization loaders (no version-1 form): the payload unmarshalled, then the claims' own kind and the
+   claims' OWN version held against what loadClaims dispatched on - the version that also selects the signed text (the F7
+   repair); the claims are handed back as unmarshalled ---------- *)
+Section AuthLoaders.
+  Context {V : Type} (vnil : V).
+  Lemma src_load_auth_request (unm : string -> V * option string) (ty : V -> string) (ver : V -> Z) (data : string) (version : Z) :
+    V2.loadAuthorizationRequest V vnil unm ty ver data version
+    = match snd (unm data) with
+      | Some e => (vnil, Some e)
+      | None => if negb (ty (fst (unm data)) =? "authorization_request")%string then (vnil, Some "not an authorization request claim")
+                else if negb (ver (fst (unm data)) =? version)%Z then (vnil, Some "authorization request claim version mismatch")
+                else (fst (unm data), None)
+      end.
+  Proof. unfold V2.loadAuthorizationRequest. cbv zeta. destruct (unm data) as [v [e|]]; reflexivity. Qed.
+  Lemma src_load_auth_response (unm : string -> V * option string) (ty : V -> string) (ver : V -> Z) (data : string) (version : Z) :
+    V2.loadAuthorizationResponse V vnil unm ty ver data version
+    = match snd (unm data) with
+      | Some e => (vnil, Some e)
+      | None => if negb (ty (fst (unm data)) =? "authorization_response")%string then (vnil, Some "not an authorization response claim")
+                else if negb (ver (fst (unm data)) =? version)%Z then (vnil, Some "authorization response claim version mismatch")
+                else (fst (unm data), None)
+      end.
+  Proof. unfold V2.loadAuthorizationResponse. cbv zeta. destruct (unm data) as [v [e|]]; reflexivity. Qed.
+  (* accepted claims report the version that was dispatched on - and are what was unmarshalled, untouched *)
+  Lemma src_load_auth_response_version unm ty ver data version v :
+    V2.loadAuthorizationResponse V vnil unm ty ver data version = (v, None) -> v = fst (unm data) /\ ver v = version.
+  Proof.
+    rewrite src_load_auth_response. destruct (unm data) as [u [e|]]; cbn [fst snd]; [discriminate|].
+    destruct (negb (ty u =? "authorization_response")%string); [discriminate|].
+    destruct (ver u =? version)%Z eqn:E; cbn [negb]; [|discriminate].
+    intros H. inversion H. subst. split; [reflexivity|now apply Z.eqb_eq].
+  Qed.
+  Lemma src_load_auth_request_version unm ty ver data version v :
+    V2.loadAuthorizationRequest V vnil unm ty ver data version = (v, None) -> v = fst (unm data) /\ ver v = version.
+  Proof.
+    rewrite src_load_auth_request. destruct (unm data) as [u [e|]]; cbn [fst snd]; [discriminate|].
+    destruct (negb (ty u =? "authorization_request")%string); [discriminate|].
+    destruct (ver u =? version)%Z eqn:E; cbn [negb]; [|discriminate].
+    intros H. inversion H. subst. split; [reflexivity|now apply Z.eqb_eq].
+  Qed.
+End AuthLoaders.
